@@ -132,6 +132,29 @@ def oracle(ctx, rng, n):
         if abs(float(r.total_power) - want_core) > 1e-9 * want_core:
             ctx.violation("c03-core-total", "Reactor.total_power %.9g differs from requested power x scaling %.9g"
                           % (r.total_power, want_core), case=case)
+        if ci % 3 == 2:
+            # the same input and power files read and swept a SECOND time in the same process (next time point, orificing
+            # iteration): the power deposited is again the power the files assign
+            import os
+            import dassh
+            try:
+                inp_b = dassh.DASSH_Input(os.path.join(d, "input.txt"))
+                r_b = dassh.Reactor(inp_b, path=d, write_output=False)
+                gi.sweep(r_b)
+                ctx.count("second_run_same_files")
+                for asm, a in zip(case['assignment'], r_b.assemblies):
+                    aid = gi.position_index(asm['ring'], asm['pos'])
+                    dl = sum(float(v) for v in a._power_delivered.values())
+                    want = float(ex[aid]) * factor
+                    if abs(dl - want) > 1e-9 * max(abs(want), 1.0):
+                        ctx.violation("c03-delivered:second-run-same-files",
+                                      "second run of the same input and power files in one process: assembly %d gets %.9g W, the files "
+                                      "assign %.9g W (rel %.3g; power scaling factor %s, total_power %s)"
+                                      % (a.id, dl, want, (dl - want) / want, case['power'].get('scaling'), case['power'].get('total_power')),
+                                      case=case, sequence=["read + sweep", "read + sweep again (same files)"])
+                        break
+            except SystemExit:
+                ctx.count("second_run_rejected")
         # per-cell correspondence with the model on the first assembly
         a = r.assemblies[0]
         P = a.power
